@@ -67,7 +67,13 @@ func prop(st sreg.Strat) engine.AnyProp {
 				return o
 			}
 			acts := res.Outs[0]
-			f := sreg.FieldsOfBars(c.Bars)
+			// The expected actions are worked out at the natural unit of quote (prices of 0.5 ..
+			// 4000) and the strategy runs on the same bars times 2^Exp. Every documented rule is
+			// homogeneous in the price unit and a power-of-two factor commutes exactly with every
+			// floating-point operation, so the actions are the same - unless the code holds an
+			// absolute threshold or tolerance in price units. (It also keeps the tie exemption,
+			// which is an absolute 1e-9 at natural scale, from swallowing a micro-priced series.)
+			f := sreg.FieldsOfBars(c.Bars.Unscaled())
 			want := st.Rule(s, f)
 			msg, compared, exempt := match(acts, want)
 			if msg != "" {
@@ -115,6 +121,9 @@ func prop(st sreg.Strat) engine.AnyProp {
 			o.Add("bars", n)
 			o.Add("bars_with_all_fields_distinct", indep)
 			o.Class("series:" + c.Bars.Class)
+			if c.Bars.Exp != 0 {
+				o.Class(fmt.Sprintf("price_unit:2^%d", c.Bars.Exp))
+			}
 			o.Key = fmt.Sprint(c.Plain, c.Cfg, c.Bars.Close, c.Bars.High, c.Bars.Volume)
 			return o
 		},
